@@ -2,7 +2,7 @@
 import re
 from ksirules.flow import path_lines, status_var
 from ksirules.model import AnalysisBroken
-from ksirules.ownership import absorbed_param_release, borrowed_into_owning_field, borrowed_into_owning_list, uninitialised_at_destructor, analyse, dangling_fields, is_release, unchecked_allocations
+from ksirules.ownership import absorbed_param_release, borrowed_into_owning_field, borrowed_into_owning_list, struct_copies_sharing_owned_fields, uninitialised_at_destructor, analyse, dangling_fields, is_release, unchecked_allocations
 from ksirules.status import dropped_errors
 
 TITLE = "a failed allocation yields an error, never a crash, leak or corruption"
@@ -100,6 +100,20 @@ def run(prog, chk):
     chk.not_decided = ["behaviour inside OpenSSL / libcurl", "that repeating the operation gives the fault-free result",
                        "ownership of objects reachable only through containers"]
     chk.assume("a producer leaves its out-parameter untouched when it fails (true of the res/tmp/*out = tmp idiom; checked for the producers derived from source)")
+    chk.rule("C19.structcopy", "a whole-struct copy gives the copy its own value for every pointer field that is released through such an object", floor=1)
+    ncopies = 0
+    for fn in sorted(prog.all_functions(), key=lambda f: (f.unit, f.line)):
+        st = {}
+        hits = struct_copies_sharing_owned_fields(prog, fn, st)
+        ncopies += st.get("copies", 0)
+        for (b, i, rec, f, dst) in hits:
+            chk.ob("C19.structcopy", "%s:%s.%s" % (fn.name, rec, f), False,
+                   "the struct copy into %s also copies %s, which is released through objects of this type; a path to the exit gives %s no value of its own "
+                   "(an out-argument of a call that can fail does not count): both objects release the same pointee" % (dst, f, dst), loc=fn.loc(fn.elem_line(b, i)), fn=fn)
+        if st.get("copies") and not hits:
+            chk.ob("C19.structcopy", fn.name, True, "%d whole-struct copy/copies: every released pointer field is re-assigned in the copy before the exit" % st["copies"], loc=fn.loc(), fn=fn)
+    if ncopies < 2:
+        raise AnalysisBroken("C19.structcopy: only %d whole-struct copies recognised" % ncopies)
     chk.rule("C19.funnel", "only KSI_malloc / KSI_calloc / KSI_free call the C allocator", floor=1)
     chk.rule("C19.owner", "owning locals are released exactly once or handed over on every path", floor=250)
     chk.rule("C19.absorbed", "an error exit does not destroy a caller's object that was linked into a new object (the caller releases it too)", floor=3)
